@@ -39,6 +39,7 @@ struct Profile {
   bool force_compression = false;
   unsigned w_retune = 0;          // change the active set's tick rate through get_active_block_parameters_ref() + rotate_output(export=true)
   bool ext_generic_only = false;  // application-built blocks use the generic add_* overloads only (hints apply)
+  bool align_mode = false;        // exhaustive alignment sweep: a scripted history whose first record carries a string of every length 0..2250
   bool enum_mode = false;         // exhaustive small-scope enumeration (C12): fixed tiny alphabet, no other choices
 };
 
@@ -242,8 +243,9 @@ static void hist_case(Case& cs, const Profile& pf) {
   gen::Pools pools;
   gen::TimeCtx tc;
   gen::RecOpts ro;
-  if (!pf.enum_mode) { pools = gen::make_pools(c); tc = gen::gen_timectx(c); }
-  ro.pres = pf.enum_mode ? 4 : pf.pres_fixed ? pf.pres_fixed : (unsigned)c.pick<int>({4, 1, 7, 2, 6, 8});
+  const bool scripted = pf.enum_mode || pf.align_mode;
+  if (!scripted) { pools = gen::make_pools(c); tc = gen::gen_timectx(c); }
+  ro.pres = scripted ? 4 : pf.pres_fixed ? pf.pres_fixed : (unsigned)c.pick<int>({4, 1, 7, 2, 6, 8});
   ro.big = pf.big_strings ? (pf.ops_per_size >= 10 ? 70000 : 5000) : 300;
   gen::BpOpts bo;
   bo.full_hint_modes = pf.hint_modes;
@@ -253,7 +255,16 @@ static void hist_case(Case& cs, const Profile& pf) {
   RefExporter ref;
   int comp, kind;
   unsigned nops;
-  if (pf.enum_mode) {
+  size_t align_len = 0; int align_variant = 0;
+  if (pf.align_mode) {
+    align_len = (size_t)c.range(0, 2250);     // first choice = sharding dimension
+    align_variant = (int)c.range(0, 5);       // which member ends the first record
+    M::BlockP b0;
+    b0.sp.hints.qr = gen::QR_ALL; b0.sp.hints.sig = gen::SIG_ALL; b0.sp.hints.rr = 3; b0.sp.hints.other = 3;
+    b0.sp.max_items = 10000;
+    ref.sets.push_back(b0);
+    comp = 0; kind = 0; nops = 5;
+  } else if (pf.enum_mode) {
     // configuration = first choice (sharding dimension): max_block_items in {0,1,2,3} x AEC hint x MM hint
     uint64_t cfg = c.range(0, 15);
     M::BlockP b0;
@@ -275,7 +286,7 @@ static void hist_case(Case& cs, const Profile& pf) {
 
   M::Preamble mpre;
   mpre.bps = ref.sets;
-  if (!pf.enum_mode && c.coin()) mpre.priv.set(c.range(0, 255)); // private version present / absent
+  if (!scripted && c.coin()) mpre.priv.set(c.range(0, 255)); // private version present / absent
   mpre.major = 1; mpre.minor = 0;
   CDNS::FilePreamble fp = adapt::lib_preamble(mpre);
 
@@ -348,7 +359,10 @@ static void hist_case(Case& cs, const Profile& pf) {
     unsigned tot = 0; for (unsigned w : W) tot += w;
     int op = 0;
     int esym = -1;   // enumeration alphabet: 0 qr storable, 1 qr unstorable, 2 aec key 1, 3 aec key 2, 4 mm, 5 write_block, 6 set_active(other), 7 counters
-    if (pf.enum_mode) {
+    if (pf.align_mode) {
+      static const int SCRIPT[5] = {0, 3, 5, 0, 3};   // buffer_qr, write_block, rotate_output(export=false), buffer_qr, write_block
+      op = SCRIPT[step];
+    } else if (pf.enum_mode) {
       esym = (int)c.range(0, 7);
       static const int OPMAP[8] = {0, 0, 1, 1, 2, 3, 7, 8};
       op = OPMAP[esym];
@@ -362,12 +376,26 @@ static void hist_case(Case& cs, const Profile& pf) {
     switch (op) {
       case 0: {  // buffer_qr
         Fields f;
-        if (pf.enum_mode) { if (esym == 0) f[M::Q_TXID] = M::Val::Int(step + 1); } else f = gen::gen_qr(c, pools, tc, tps, ro);
+        if (pf.align_mode) {
+          f[M::Q_TXID] = M::Val::Int(0x1234 + step);
+          if (step == 0) {
+            std::string filler(align_len, 'q');
+            for (size_t i = 0; i < filler.size(); i++) filler[i] = (char)('a' + (i * 11) % 26);
+            switch (align_variant) {
+              case 0: f[M::Q_QNAME] = M::Val::Bytes(filler); f[M::Q_ASN] = M::Val::Text("0123456789"); break;            // text string last
+              case 1: f[M::Q_QNAME] = M::Val::Bytes("\x03www\x00"); f[M::Q_ASN] = M::Val::Text(filler); break;          // long text last
+              case 2: f[M::Q_QNAME] = M::Val::Bytes(filler); f[M::Q_RTT] = M::Val::Int((M::i128)INT64_MIN); break;         // 9-byte integer last
+              case 3: f[M::Q_QNAME] = M::Val::Bytes(filler); f[M::Q_HOPLIMIT] = M::Val::Int(24); f[M::Q_QSIZE] = M::Val::Int(24); f[M::Q_RSIZE] = M::Val::Int(0x100000000ll); break;
+              case 4: f[M::Q_QNAME] = M::Val::Bytes(filler); f[M::Q_CLIENT_PORT] = M::Val::Int(65535); f[M::Q_DELAY] = M::Val::Int(-25); break;
+              default: f[M::Q_QNAME] = M::Val::Bytes(filler); f[M::Q_CC] = M::Val::Text(std::string(24, 'c')); break;      // 24-byte text last
+            }
+          }
+        } else if (pf.enum_mode) { if (esym == 0) f[M::Q_TXID] = M::Val::Int(step + 1); } else f = gen::gen_qr(c, pools, tc, tps, ro);
         Fields p = M::project_qr(f, h);
         bool storable = !p.empty();
         if (!storable && ref.maxi() == 0 && ref.active != ref.cur_bp) { cs.st.cnt("excluded:max0_unstorable_rearm"); break; }
         M::StatsM s;
-        if (pf.enum_mode) {} else if (storable || ref.maxi() != 0) s = gen::gen_stats(c, pf.empty_structs); else cs.st.cnt("excluded:stats_on_unstorable_max0");
+        if (scripted) {} else if (storable || ref.maxi() != 0) s = gen::gen_stats(c, pf.empty_structs); else cs.st.cnt("excluded:stats_on_unstorable_max0");
         if (s.present && s.f.empty()) had_empty_struct = true;
         trace << "buffer_qr " << M::show_fields(f, M::QF_NAME).substr(0, 300) << (s.present ? " stats=" + s.show() : "") << (storable ? "" : " [unstorable]");
         size_t ret = ex->buffer_qr(adapt::generic_qr(f), adapt::lib_stats(s));
@@ -440,7 +468,7 @@ static void hist_case(Case& cs, const Profile& pf) {
         break;
       }
       case 5: {  // rotate_output
-        bool exp = c.coin();
+        bool exp = pf.align_mode ? false : c.coin();
         OutM& old = ref.outs.back();
         size_t buffered = ref.items();
         trace << "rotate_output(export=" << exp << ")";
@@ -519,7 +547,7 @@ static void hist_case(Case& cs, const Profile& pf) {
     last_was_rot = rot_now;
   }
   // documented usage: the application writes the buffered block before destroying the exporter (profile choice)
-  bool final_write = pf.enum_mode ? false : c.coin();
+  bool final_write = scripted ? false : c.coin();
   if (final_write) {
     size_t ret = ex->write_block();
     bool wrote = ref.write_block();
@@ -717,13 +745,14 @@ static Profile P_C10() { Profile p = P_C02(); p.name = "c10"; p.oracles = O_C10;
 static Profile P_C11() { Profile p; p.name = "c11"; p.oracles = O_C11; p.small_blocks = true; p.hint_modes = false; p.w_write = 1; p.ops_per_size = 2; return p; }
 static Profile P_C12() { Profile p; p.name = "c12"; p.oracles = O_C12; p.small_blocks = true; p.min_sets = 2; p.w_setactive = 3; p.w_counters = 2; p.w_aec = 6; p.w_mm = 5; p.w_write = 2; p.ops_per_size = 2; p.any_tps = false; return p; }
 static Profile P_C12E() { Profile p = P_C12(); p.name = "c12enum"; p.enum_mode = true; return p; }
+static Profile P_ALIGN(const char* n, unsigned o) { Profile p; p.name = n; p.oracles = o; p.align_mode = true; return p; }
 static Profile P_C13() { Profile p; p.name = "c13"; p.oracles = O_C13; p.w_retune = 1; p.w_rotate = 5; p.w_addbp = 2; p.w_setactive = 2; p.w_ext = 1; p.small_blocks = true; return p; }
 static Profile P_C14() { Profile p = P_C02(); p.name = "c14"; p.oracles = O_C14 | O_C01 | O_C02 | O_C10; p.big_strings = true; p.force_compression = true; p.w_rotate = 3; return p; }
 static Profile P_C17() { Profile p; p.name = "c17"; p.oracles = O_C17 | O_C01; p.w_retune = 2; p.w_rotate = 1; p.hint_modes = false; p.w_mm = 6; p.w_aec = 1; p.pres_fixed = 5; return p; }
 
 int main(int argc, char** argv) {
   Registry r;
-  static Profile ps[] = {P_C01(), P_C01BIG(), P_C01HUGE(), P_C02(), P_C04(), P_C10(), P_C11(), P_C12(), P_C12E(), P_C13(), P_C14(), P_C17()};
+  static Profile ps[] = {P_ALIGN("c01align", O_C01), P_ALIGN("c02align", O_C02), P_ALIGN("c10align", O_C10), P_ALIGN("c13align", O_C13), P_C01(), P_C01BIG(), P_C01HUGE(), P_C02(), P_C04(), P_C10(), P_C11(), P_C12(), P_C12E(), P_C13(), P_C14(), P_C17()};
   for (auto& p : ps) { const Profile* pp = &p; r.add(std::string("hist_") + p.name, [pp](Case& cs) { hist_case(cs, *pp); }); }
   return harness_main(argc, argv, r);
 }
